@@ -159,6 +159,29 @@ Proof.
   autorewrite with monq. destruct E6 as [-> ->]. reflexivity.
 Qed.
 
+Ltac ghost_cases G :=
+  intros m e; destruct e;
+  [ reflexivity                                   (* TInit *)
+  | unfold mon_step; cbv zeta; qproj; reflexivity (* TCallFd *)
+  | unfold mon_step; cbv zeta; qproj; reflexivity (* TCallTimer *)
+  | unfold mon_step; cbv zeta; qproj; reflexivity (* TCallTask *)
+  | unfold mon_step; cbv zeta; qproj; reflexivity (* TCallEvent *)
+  | unfold mon_step; cbv zeta; qproj; reflexivity (* TCallRaw *)
+  | unfold mon_step; cbv zeta; qproj; reflexivity (* TWait *)
+  | match goal with |- context [TRet ?n ?fds ?clk] => destruct n as [n'|];
+      [ pose proof (G m n' fds clk) as GG; unfold ghost3 in GG; congruence
+      | unfold mon_step; cbv zeta; qproj; reflexivity ] end
+  | match goal with |- context [TAct ?a] => destruct a; reflexivity end
+  | reflexivity | reflexivity | reflexivity       (* TMain TKTfd TKClose *)
+  | match goal with |- context [TRes ?kind ?id ?rc] => unfold mon_step; destruct (rc =? 0); [|reflexivity];
+      destruct (kind =? 0); [reflexivity|]; destruct (kind =? 1); reflexivity end
+  | unfold mon_step; cbv zeta; qproj; reflexivity (* TEnd *)
+  | unfold mon_step; qproj; reflexivity           (* TTear *)
+  | unfold mon_step; qproj; reflexivity           (* TDone *)
+  | reflexivity                                   (* TLimit *)
+  | unfold mon_step; cbv zeta; qproj; reflexivity (* THang *)
+  | reflexivity | reflexivity ].                  (* TFatal TCrash *)
+
 Lemma a_stale_step : forall m e, a_stale (mon_step m e) =
   match e with
   | TAct (AClockAdv _) => true
@@ -166,15 +189,7 @@ Lemma a_stale_step : forall m e, a_stale (mon_step m e) =
   | TRet _ _ _ => false
   | _ => a_stale m
   end.
-Proof.
-  intros m e. destruct e; try reflexivity;
-    try (unfold mon_step; cbv zeta; qproj; reflexivity).
-  - destruct n as [n|].
-    + pose proof (ghost3_TRet_some m n fds clk) as G. unfold ghost3 in G. congruence.
-    + unfold mon_step; cbv zeta; qproj; reflexivity.
-  - destruct a; reflexivity.
-  - unfold mon_step. destruct (rc =? 0); [|reflexivity]. destruct (kind =? 0); [reflexivity|]. destruct (kind =? 1); reflexivity.
-Qed.
+Proof. ghost_cases ghost3_TRet_some. Qed.
 
 Lemma ran_step : forall m e, ran (mon_step m e) =
   match e with
@@ -183,15 +198,7 @@ Lemma ran_step : forall m e, ran (mon_step m e) =
   | TEnd _ _ => []
   | _ => ran m
   end.
-Proof.
-  intros m e. destruct e; try reflexivity;
-    try (unfold mon_step; cbv zeta; qproj; reflexivity).
-  - destruct n as [n|].
-    + pose proof (ghost3_TRet_some m n fds clk) as G. unfold ghost3 in G. congruence.
-    + unfold mon_step; cbv zeta; qproj; reflexivity.
-  - destruct a; reflexivity.
-  - unfold mon_step. destruct (rc =? 0); [|reflexivity]. destruct (kind =? 0); [reflexivity|]. destruct (kind =? 1); reflexivity.
-Qed.
+Proof. ghost_cases ghost3_TRet_some. Qed.
 
 Lemma a_rwp_step : forall m e, a_rwp (mon_step m e) =
   match e with
@@ -200,12 +207,4 @@ Lemma a_rwp_step : forall m e, a_rwp (mon_step m e) =
   | TCallRaw j => upd (a_rwp m) j false
   | _ => a_rwp m
   end.
-Proof.
-  intros m e. destruct e; try reflexivity;
-    try (unfold mon_step; cbv zeta; qproj; reflexivity).
-  - destruct n as [n|].
-    + pose proof (ghost3_TRet_some m n fds clk) as G. unfold ghost3 in G. congruence.
-    + unfold mon_step; cbv zeta; qproj; reflexivity.
-  - destruct a; reflexivity.
-  - unfold mon_step. destruct (rc =? 0); [|reflexivity]. destruct (kind =? 0); [reflexivity|]. destruct (kind =? 1); reflexivity.
-Qed.
+Proof. ghost_cases ghost3_TRet_some. Qed.
